@@ -52,7 +52,7 @@ func c02Cases(tier string, seed uint64, flavor string) []lib.Case {
 	}
 	// one deterministic case per kind-swap class (alone and combined with a rename source),
 	// so that every known finding of this class is observed on every run
-	for ks := 1; ks <= 7; ks++ {
+	for ks := 1; ks <= 10; ks++ {
 		for _, ren := range []bool{false, true} {
 			o := lib.GenOpts{PathFocus: true, MinFiles: 2, MaxFiles: 3, ForceKindSwap: ks, ForceRename: ren}
 			s := c02Spec{PairSeed: lib.Mix(seed, 22, uint64(ks)), Opts: o, Comp: lib.Comp{Algo: "none"}, Repeats: rep}
@@ -355,7 +355,7 @@ func init() {
 	lib.Register(&lib.Property{
 		ID:          "C02",
 		Level:       "exploration",
-		Rule:        "pairs weighted to path-level relations (rename, swap, chain, duplicate with/without original, patched+rename-source, grow/shrink/empty, deleted dirs, symlinks, kind swaps); plain and optimized patch; each applied in place through the overlay bowl R times from byte-identical starting states (Go randomises map iteration per range, repetition is the only lever on commit order; the mv/cp/overlay/ghost sequence of every commit is parsed from BOWL_OVERLAY_VERBOSE output). Oracle: inode/mtime/size/checksum snapshot of the directory before Resume == snapshot right before Commit; tree after Commit == new build == fresh application. distinct = distinct (relation-set signature, patch kind) with >=1 non-'unchanged' relation",
+		Rule:        "pairs weighted to path-level relations (rename, swap, chain, duplicate with/without original, patched+rename-source, grow/shrink/empty, deleted dirs, symlinks incl. destinations that change only in spelling, kind swaps incl. a symlink that becomes a regular copy of an old file); plain and optimized patch; in a third of the cases the pools given to patcher and optimizer hand a just-used reader back at an arbitrary position; each applied in place through the overlay bowl R times from byte-identical starting states (Go randomises map iteration per range, repetition is the only lever on commit order; the mv/cp/overlay/ghost sequence of every commit is parsed from BOWL_OVERLAY_VERBOSE output). Oracle: inode/mtime/size/checksum snapshot of the directory before Resume == snapshot right before Commit; tree after Commit == new build == fresh application. distinct = distinct (relation-set signature, patch kind) with >=1 non-'unchanged' relation",
 		Assumptions: []string{"tmpfs/ext4 nanosecond mtimes and stable inodes", "stage folder is outside the output directory", "map-order exploration is by repetition only"},
 		Cases:       c02Cases,
 		Run:         c02Run,
